@@ -198,9 +198,20 @@ def path_agreement(ctx, P, py, rule="NEWICK-PATHS"):
     ctx.ob(rule, "py|branch-per-child", ok, tm.loc(colon[0] if colon else bn),
            "branch lengths are appended per child inside the children loop (the chosen root never gets one)" if ok else
            "a branch length is appended outside the per-child loop: a subtree root with a parent gets a spurious length")
-    sb = ast.unparse(bn)
-    ctx.ob(rule, "py|branch-format", "':{0:.{1}f}'.format(branch_length, precision)" in sb and "branch_length = tree.branch_length(child)" in sb, tm.loc(bn),
-           "':{0:.{1}f}'.format(tree.branch_length(child), precision)")
+    # name-independent: ':{0:.{1}f}'.format(X, precision) where X is tree.branch_length(<loop variable>) or a local defined so
+    okf = False
+    for c in ast.walk(bn):
+        if isinstance(c, ast.Call) and isinstance(c.func, ast.Attribute) and c.func.attr == "format" and isinstance(c.func.value, ast.Constant) \
+                and c.func.value.value == ":{0:.{1}f}" and len(c.args) == 2 and ast.unparse(c.args[1]) == "precision":
+            x = c.args[0]
+            child = loops[0].target.id if loops and isinstance(loops[0].target, ast.Name) else None
+            want = "tree.branch_length(%s)" % child
+            if ast.unparse(x) == want:
+                okf = True
+            elif isinstance(x, ast.Name):
+                ds = [a for a in ast.walk(bn) if isinstance(a, ast.Assign) and any(isinstance(t, ast.Name) and t.id == x.id for t in a.targets)]
+                okf = len(ds) == 1 and ast.unparse(ds[0].value) == want
+    ctx.ob(rule, "py|branch-format", okf, tm.loc(bn), "':{0:.{1}f}'.format(tree.branch_length(child), precision)")
     ctx.ob(rule, "py|branch-cond", all(ast.unparse(i.test) in ("include_branch_lengths", "tree.is_leaf(node)") for i in ast.walk(bn) if isinstance(i, ast.If)),
            tm.loc(bn), "branch length depends only on include_branch_lengths")
     for name in ("write_fasta", "write_nexus"):
